@@ -152,7 +152,20 @@ func (g *clGen) node(parent, depth int) {
 			// a kill or stop aimed at a context that has already ended is nothing to the caller
 			g.ln(`if ENDED then emit("endedkill", %d) if %d %% 2 == 0 then ENDED:killnow() else ENDED:stopnow() end emit("survived", %d) end`, id, id, id)
 		case 0:
-			g.ln(`work(%d)`, []int{10, 100, 600, 3000}[t.Choose(4)])
+			w := []int{10, 100, 600, 3000}[t.Choose(4)]
+			// (variants decided from what the tape has already produced, without drawing from it)
+			switch core.HashString(fmt.Sprintf("%d|%d|%d", id, i, g.b.Len())) % 7 {
+			case 0: // the work is done under xpcall / pcall: a limit reached in there still ends the context
+				g.ln(`emit("xp", %d, xpcall(function() work(%d) return "x%d" end, function(e) return e end), runtime.context().status)`, id, w, id)
+			case 1:
+				g.ln(`emit("xp", %d, pcall(function() work(%d) return "p%d" end), runtime.context().status)`, id, w, id)
+			case 2: // ... in the __close handler of a coroutine that dies by an error
+				g.ln(`do local co = coroutine.wrap(function() local x <close> = setmetatable({}, {__close = function() work(%d) end}) error("die%d", 0) end) emit("cod", %d, pcall(co), runtime.context().status) end`, w, id, id)
+			case 3: // ... in the __close handler of a suspended coroutine that is closed
+				g.ln(`do local co = coroutine.create(function() local x <close> = setmetatable({}, {__close = function() work(%d) end}) coroutine.yield() end) coroutine.resume(co) emit("coc", %d, coroutine.close(co), runtime.context().status) end`, w, id)
+			default:
+				g.ln(`work(%d)`, w)
+			}
 		case 1:
 			g.ln(`do local c = runtime.context() local m0 = c.used.memory keep[#keep + 1] = ("x"):rep(%d) emit("alloc", %d, %[1]d, m0, c.used.memory, c.kill.memory, c.stop.memory) end`, []int{100, 1500, 9000}[t.Choose(3)], id)
 		case 2:
@@ -339,6 +352,14 @@ func runCtxLua(ctx *core.RunCtx) {
 			return 0, false
 		}
 		switch tag {
+		case "xp", "cod", "coc":
+			// L9: code that goes on after a protected call / the end of a coroutine runs in a live context (a
+			// limit reached in there would have ended the context, not the protected call only)
+			ctx.Count("protected work / dying-coroutine handlers survived inside a limited context", 1)
+			if st := strings.Trim(f[len(f)-1], `"`); st != "live" {
+				fail("L9", "running-in-ended-context:"+tag, "context %d goes on running after %s although it reports status %s: %s", id, tag, st, e)
+				return
+			}
 		case "before":
 			kc, _ := num(3)
 			uc, _ := num(4)
